@@ -2341,7 +2341,6 @@ static void _iterator_advance_range(hostlist_iterator_t i)
 char *hostlist_next(hostlist_iterator_t i)
 {
     char *buf = NULL;
-    char suffix[16];
     int len = 0;
     assert(i != NULL);
     assert(i->magic == HOSTLIST_MAGIC);
@@ -2353,18 +2352,16 @@ char *hostlist_next(hostlist_iterator_t i)
         return NULL;
     }
 
-    suffix[0] = '\0';
-
-    if (!i->hr->singlehost)
-        snprintf (suffix, 15, "%0*lu", i->hr->width, i->hr->lo + i->depth);
-
-    len = strlen (i->hr->prefix) + strlen (suffix) + 1;
+    /* room for the prefix and a number of `width' (at least 20) digits */
+    len = strlen (i->hr->prefix) + (i->hr->width > 20 ? i->hr->width : 20) + 1;
     if (!(buf = malloc (len)))
         out_of_memory("hostlist_next");
 
-    buf[0] = '\0';
-    strcat (buf, i->hr->prefix);
-    strcat (buf, suffix);
+    if (i->hr->singlehost)
+        strcpy (buf, i->hr->prefix);
+    else
+        snprintf (buf, len, "%s%0*lu", i->hr->prefix, i->hr->width,
+                  i->hr->lo + i->depth);
 
     UNLOCK_HOSTLIST(i->hl);
     return (buf);
